@@ -6,11 +6,14 @@ PROP = {
              "travels with every case and the model interprets exactly that term. (1) every generated integer / bits / VarUInteger / "
              "Unary type (Uint1..64, Int1..64, 128/256/257-bit, VarUInteger1..32, BitsN) at 0, 1, max, max-1, 2^(w-1), 2^(w-1)-1, "
              "min, min+1, -1, 255/256, -128/-129, and for VarUInteger every byte length at its smallest and largest value; (2) every "
-             "described type of packages tlb, wallet, abi (560 today) with random in-domain values, every constructor of the root "
+             "described type of packages tlb, wallet, abi (562 in the base layer + 21 in the extension layer today) with random in-domain values, every constructor of the root "
              "union at least once, present/absent Maybe, left/right Either, inline/ref EitherRef, nested refs, all four MsgAddress "
              "forms with anycast depth 1..30 and address lengths 0,1,8,256,511, dictionaries of 0..3 entries; (3) 30 (600 thorough) "
              "more values for Message, CommonMsgInfo, StateInit, CurrencyCollection, Account, TransactionDescr, Transaction, "
-             "MsgEnvelope, InMsg, OutMsg, VmStackValue; (4) VM stacks of depth 0,1,2..5,12..41 whose entries are nulls, tiny ints and "
+             "MsgEnvelope, InMsg, OutMsg, VmStackValue; (3a) the extension layer: SnakeData / Bytes / Text / TextComment / "
+             "FixedLengthText and the 16 bodies holding them, 25 (300 thorough) values each with snake lengths 0, < 400, 900..1040, "
+             "1023, 1024, 2046..2048, > 3069 bits (so that, after the fields written before, the data ends before / exactly at / "
+             "after the cell boundary and spills into 1, 2, 3 chained cells) and byte strings of 0, 1, 126, 127, 255 bytes; (4) VM stacks of depth 0,1,2..5,12..41 whose entries are nulls, tiny ints and "
              "257-bit ints at their boundaries, cells, builders and cell slices (windows st_bits..end_bits / st_ref..end_ref over cells "
              "with 0, 1..8, up to 1023 data bits and 0..4 references: full, empty at either end, empty inside, partial); (4b) the "
              "cursor family: for every type holding a bit string or a cell (MsgAddress extern/var, Any, ^Cell, cell slices; 120 "
@@ -33,18 +36,21 @@ PROP = {
                     "tagged union and nothing left over (prefix law for every builder state and continuation; tail law for rest-of-cell "
                     "codecs), re-encoding gives the same cell hence the same hash, the encoder stays within 1023 bits / 4 references, "
                     "and it writes exactly the declarative TL-B serialisation; laws for uintN, intN (two's complement), VarUInteger "
-                    "(minimal byte length), MsgAddress (4 forms, anycast); VM stacks decode to the reversed list (arguments top-first, "
+                    "(minimal byte length), MsgAddress (4 forms, anycast); the same prefix/tail law and round trip for the extension layer "
+                    "(snake data chains of any length across references, whose serialisation depends on the fill level of the cell, "
+                    "length-prefixed bytes, and all combinators over them and over embedded base descriptors); VM stacks decode to the reversed list (arguments top-first, "
                     "results bottom-first). coq/Properties/C03_gen.v re-checks wf_ty (pairwise prefix-free constructor tags, tag values "
                     "fit, rest-of-cell codecs last, widths) by vm_compute on the descriptors regenerated from today's struct definitions, "
                     "that every exported type of the three packages is either claimed or listed with the reason, and prints the lists."),
-    'assumptions': ["types listed in Generated/TlbTypes.v as tlb_opaque (81: inline Hashmap / HashmapAug(E) / BinTree fields, SnakeData/Text/Bytes/FixedLengthText, SignedCoins, wallet PayloadV1toV4/PayloadHighload/W5Actions/W5ExtendedActions/TextComment and the wallet message bodies built on them, abi JettonPayload/NFTPayload/InMsgBody and the bodies containing them, config params built on inline Hashmap) and tlb_decode_only (35: hand-written decoder over the reflection encoder) are NOT covered; tlb_partial (15) lists claimed types in which some union constructor has no model (it is the empty union in the descriptor)",
+    'assumptions': ["types listed in Generated/TlbTypes.v as tlb_opaque (59: inline Hashmap (16) / HashmapAug(E) (7) / BinTree (3) fields, wallet PayloadV1toV4/PayloadHighload/W5Actions/W5ExtendedActions and the wallet message bodies built on them, abi JettonPayload/NFTPayload/InMsgBody and the bodies containing them, pointer-recursive GasLimitsPrices, VmCont/VmStkTuple/VmStack (own model), ChunkedData, stand-alone Anycast) and tlb_decode_only (35: hand-written decoder over the reflection encoder) are NOT covered; tlb_partial (16) lists claimed types in which some union constructor has no model (it is the empty union in the descriptor)",
+                    "SnakeData/Bytes/Text are one codec in the model (bit string in a chain of cells); Bytes' multiple-of-8 check and Text's UTF-8 check on decoding are domain restrictions enforced by the generator; tlb.SignedCoins is modelled as sign bit + VarUInteger 16 of the absolute value",
                     "HashmapE fields are modelled as Maybe ^Cell with an uninterpreted dictionary cell (the dictionary codec is property C05); the harness builds the Go dictionary from that cell with the library's own decoder",
                     "tlb.BlkPrevInfo (two `$_` constructors, chosen by the enclosing BlockInfo) is a context-dependent union and is not claimed stand-alone",
                     "library-cell and pruned-branch short-cuts of the decoder, Decoder.WithDebug, and aliasing between decoded values and source cells are not modelled; reflect itself is modelled (field order, tags, kinds), not verified",
                     "domain of a value = what the TL-B type can express: AccountStatus/AccStatusChange/ComputeSkipReason strings outside the named constants are written as zero bits without error, a VarUInteger n holding more than n-1 bytes gets a truncated length field without error, AddrVar.AddrLen must equal the address length; these inputs are outside the quantifier",
                     "tlb.VmCellSlice is modelled as the struct ^Cell, uint10, uint10, uint3, uint3; its domain (st <= end <= size of the cell) is enforced by the generator, the encoder's and decoder's range checks are not in the model",
                     "tlb.Any is encoded from all its bits but only the references not yet read (NextRef): the cursor family leaves the reference cursor of Any alone",
-                    "known clean-tree behaviour counted, not alarmed: a non-nil empty wallet.W5ExtendedActions list (also inside MessageV5/MessageV5Beta) encodes to nothing and does not decode",
+                    "a non-nil EMPTY wallet.W5ExtendedActions list (also behind the maybe pointer of MessageV5/MessageV5Beta) encodes to nothing and does not decode: outside the quantifier (the TL-B list has at least one action; 'no actions' is the nil pointer / nothing$0), counted under a known: class",
                     "the fuel of the model's walkers bounds the nesting depth of the descriptor only; wf_ty certifies it suffices (no bound on values)"],
 }
 
@@ -53,12 +59,12 @@ META = {
              "descriptor with first-match-safe constructor tags and rest-of-cell codecs only in tail position, and every value of "
              "that type, a successful encode is inverted by decode (same value, same constructor, nothing left over), re-encoding "
              "reproduces the cell, and VM stacks follow the reversed-list convention; the side conditions are re-checked on "
-             "descriptors regenerated by reflection from today's 560 describable Go types of tlb/wallet/abi (the rest listed by name). "
+             "descriptors regenerated by reflection from today's 583 describable Go types of tlb/wallet/abi (the rest listed by name). "
              "The extracted model reproduces tlb.Marshal's cells and tlb.Unmarshal's values exactly on ~6.3k (quick) / ~43k "
              "(thorough) generated cases incl. all integer widths at their boundaries and the messages/transactions of the testdata blocks."),
     'design_ref': 'DESIGN.md §6 C03/C04, §7 F6 F7 F9 F19 F20',
     'note': ("Repairs: F9 (Transaction.MarshalTLB added; tlb.Marshal(Transaction) used to panic), F6/F7 earlier, F19 by the C05 builder. "
-             "Not covered: 82 opaque + 35 decode-only types (listed per run by C03_gen.v). Trusted: Coq kernel, extraction, drivers, "
+             "Not covered: 59 opaque + 35 decode-only types (listed per run by C03_gen.v). Trusted: Coq kernel, extraction, drivers, "
              "the reflect walk of harness/tlbdesc (its output is what the model interprets and is cross-checked by every case), C06 "
              "refinement of bit strings."),
     'technique': 'Coq: deep embedding of TL-B types, codec prefix/tail law by induction over descriptors, declarative serialisation as intermediate; reflect-generated descriptors re-checked by vm_compute; cell-exact extracted-model correspondence',
